@@ -35,6 +35,14 @@ def run(ctx, report):
     report.section("doubling memory", doubling_memory, ctx, report)
     from . import scc_timing_list
     report.section("caption list timing", scc_timing_list.run, ctx, report, "3")
+    from . import scc_e2e_fold
+    report.section("end to end", scc_e2e_fold.run_part, ctx, report, "times", {
+        "start": ("R-E2E", "1", "a caption starts at the instant its EOC is transmitted: time code + one frame per preceding "
+                                "word, non-drop time codes x 1001/1000 (single/doubled codes, 1-3 loads)"),
+        "end": ("R-E2E", "3", "a caption ends at the next EDM (own line or inline before the next load) or the next EOC"),
+        "final": ("R-E2E", "3", "a final caption that is never cleared lasts four seconds"),
+        "offset": ("R-E2E", "1", "the configured offset (seconds) is subtracted"),
+    })
     report.not_decided += ["ordering of returned captions and start <= end for arbitrary streams",
                            "which captions a given stream yields (decoder state machine runs)"]
     report.assume("IEEE-754: the float products in _translate_time are within one ulp of the exact form")
